@@ -72,6 +72,7 @@ type HarnessResult struct {
 	SitesUnreached []string            `json:"assert_sites_unreached"`
 	Violations     []*Violation        `json:"violations"`
 	ViolationCount int                 `json:"violation_count"`
+	ViolationClasses map[string]int    `json:"violation_classes"`
 	Unknowns       map[string]int      `json:"solver_unknowns"`
 	ErrorSamples   []string            `json:"error_samples"`
 	TruncSamples   []string            `json:"truncation_samples"`
@@ -89,7 +90,7 @@ type HarnessResult struct {
 // explore runs one harness entry to exhaustion of its path tree (or limits).
 func explore(env *Env, entry *ssa.Function, lim Limits) *HarnessResult {
 	t0 := time.Now()
-	res := &HarnessResult{Harness: entry.Name(), Sites: map[string]int{}, Unknowns: map[string]int{}}
+	res := &HarnessResult{Harness: entry.Name(), Sites: map[string]int{}, Unknowns: map[string]int{}, ViolationClasses: map[string]int{}}
 	var mu sync.Mutex
 	cond := sync.NewCond(&mu)
 	work := [][]decision{nil}
@@ -170,14 +171,13 @@ func explore(env *Env, entry *ssa.Function, lim Limits) *HarnessResult {
 			case "violation":
 				res.Paths++
 				res.ViolationCount++
-				key := pr.viol.Site + "|" + pr.viol.Kind + "|" + pr.viol.Tag
-				if !seenViol[key] || len(res.Violations) < 40 {
-					if !seenViol[key] {
-						seenViol[key] = true
-						res.Violations = append(res.Violations, pr.viol)
-					} else if countKey(res.Violations, key) < 3 {
-						res.Violations = append(res.Violations, pr.viol)
-					}
+				key := pr.viol.Site + "|" + pr.viol.Kind + "|" + tagClass(pr.viol.Tag)
+				res.ViolationClasses[key]++
+				if !seenViol[key] {
+					seenViol[key] = true
+					res.Violations = append(res.Violations, pr.viol)
+				} else if len(res.Violations) < 60 && countKey(res.Violations, key) < 2 {
+					res.Violations = append(res.Violations, pr.viol)
 				}
 			case "infeasible":
 				res.Infeasible++
@@ -238,10 +238,19 @@ func explore(env *Env, entry *ssa.Function, lim Limits) *HarnessResult {
 	return res
 }
 
+// tagClass: the part of a cause tag before " | " names the class of the
+// violation (operation, faults); the rest is detail.
+func tagClass(tag string) string {
+	if k := strings.Index(tag, " | "); k >= 0 {
+		return tag[:k]
+	}
+	return tag
+}
+
 func countKey(vs []*Violation, key string) int {
 	n := 0
 	for _, v := range vs {
-		if v.Site+"|"+v.Kind+"|"+v.Tag == key {
+		if v.Site+"|"+v.Kind+"|"+tagClass(v.Tag) == key {
 			n++
 		}
 	}
